@@ -15,6 +15,18 @@ pub struct Scenario {
     pub f: fn(&Ctx) -> R<()>,
 }
 
+/// Progress file of this worker; the shrinker appends heartbeats so that the supervisor's stall watchdog
+/// does not mistake a long minimisation for a hang.
+pub static HEARTBEAT: std::sync::Mutex<Option<std::fs::File>> = std::sync::Mutex::new(None);
+
+pub fn heartbeat() {
+    if let Ok(mut g) = HEARTBEAT.lock() {
+        if let Some(f) = g.as_mut() {
+            let _ = writeln!(f, "HB");
+        }
+    }
+}
+
 thread_local! {
     static LAST_PANIC: RefCell<Option<(String, String)>> = const { RefCell::new(None) };
     static COMPONENT: RefCell<String> = const { RefCell::new(String::new()) };
@@ -163,6 +175,11 @@ fn cmd_run(property: &str, scenarios: &[Scenario], args: &[String]) -> i32 {
     let max_viol: usize = arg(args, "--max-violations").and_then(|v| v.parse().ok()).unwrap_or(8);
 
     let mut progress = progress;
+    if let Some(p) = progress.as_ref() {
+        if let Ok(c) = p.try_clone() {
+            *HEARTBEAT.lock().unwrap() = Some(c);
+        }
+    }
     let mut counters: BTreeMap<String, u64> = BTreeMap::new();
     let mut shapes: BTreeSet<u64> = BTreeSet::new();
     let mut violations: Vec<Value> = Vec::new();
